@@ -142,7 +142,7 @@ def run_check(pid, tier, seed, jobs=16, only=None):
     sys.path.insert(0, VERIF)
     sys.setrecursionlimit(20000)
     ctx = Ctx(pid, tier, seed)
-    ev_path = os.path.join(VERIF, "evidence", pid + ".json")
+    ev_path = os.path.join(os.environ.get("VERIF_EVIDENCE_DIR") or os.path.join(VERIF, "evidence"), pid + ".json")
     try:
         os.remove(ev_path)
     except OSError:
